@@ -13,3 +13,4 @@ import TFV.Properties.Src.Skeleton
 #print axioms TFV.SrcTie.C03_src_fit
 #print axioms TFV.SrcTie.C03_src_fit_stops_at_first
 #print axioms TFV.SrcTie.C03_src_fit_full
+#print axioms TFV.SrcTie.C03_src_fit_is_model_run
